@@ -7,7 +7,9 @@
   buffer of the pool.  A MULTI-KEY read (`multi_get` and its iterators) does these two actions for each of its keys
   (`.mgetStore k ks acc iter` / `.mgetPool k v ks acc iter`), with any interleaving between them and between keys:
   each of its hits is in flight between ITS lookup and ITS `pool.add` and contributes exactly one record
-  (`C15_layerB_mget_hit_step`, `C15_layerB_mget_record_step`, `C15_layerB_mget_enabled`, `…_saturated_drops`).  Between the two the hit HAS been counted but its record is nowhere yet: the Layer A identity
+  (`C15_layerB_mget_hit_step`, `C15_layerB_mget_record_step`, `C15_layerB_mget_enabled`, `…_saturated_drops`); its loads
+  of the shutdown flag (`.mgetFlag …`, actions of their own) create no record and move no counter — also when a `get`
+  of the read finds the flag set and answers `None` without a lookup (`C15_layerB_mget_flag_step`).  Between the two the hit HAS been counted but its record is nowhere yet: the Layer A identity
   `hits = buffered + accessAdded + accessDropped` is FALSE at such an instant (`recB_layerA_identity_fails`);
   the identity that holds at every instant counts these reads in flight:
 
@@ -177,19 +179,38 @@ theorem recFrame_upAfter {b : BState} (b0 : BState) (i id : Nat) (uw : Option In
   · exact recFrame_set b0 i _ h1 h2 h3 rfl
   · exact recFrame_spot b0 i _ h1 h2 h3
 
-/-- where a multi-key read stands after `mgetNext`: idle (returned), or at the store lookup of its next key — in
+/-- where a multi-key read stands after `mgetNext`: idle (returned), or before the next load of the flag — in
     neither case between a lookup and its `pool.add` -/
 theorem mgetNext_cl (b0 : BState) (i : Nat) (ks : List Nat) (acc : List (Option Nat)) (iter : Bool) :
     ∃ pc', (mgetNext b0 i ks acc iter).cl = b0.cl.set i pc' ∧ pc'.inFlight = 0 := by
-  rcases mgetNext_spec b0 i ks acc iter with ⟨out, e⟩ | ⟨k, rest, _, _, e⟩ <;> rw [e]
+  rcases mgetNext_spec b0 i ks acc iter with ⟨out, e⟩ | ⟨k, rest, _, e⟩ <;> rw [e]
   · exact ⟨.idle, rfl, rfl⟩
   · exact ⟨_, rfl, rfl⟩
 
 theorem recFrame_mgetNext {b : BState} (b0 : BState) (i : Nat) (ks : List Nat) (acc : List (Option Nat)) (iter : Bool)
     (h1 : recView b0.g = recView b.g) (h2 : b0.g.cfg = b.g.cfg) (h3 : b0.cl = b.cl) :
     RecFrame b (mgetNext b0 i ks acc iter) i := by
-  rcases mgetNext_spec b0 i ks acc iter with ⟨out, e⟩ | ⟨k, rest, _, _, e⟩ <;> rw [e]
+  rcases mgetNext_spec b0 i ks acc iter with ⟨out, e⟩ | ⟨k, rest, _, e⟩ <;> rw [e]
   · exact recFrame_finish b0 i _ h1 h2 h3
+  · exact recFrame_set b0 i _ h1 h2 h3 rfl
+
+theorem recFrame_mgetStart {b : BState} (b0 : BState) (i : Nat) (ks : List Nat) (iter : Bool)
+    (h1 : recView b0.g = recView b.g) (h2 : b0.g.cfg = b.g.cfg) (h3 : b0.cl = b.cl) :
+    RecFrame b (mgetStart b0 i ks iter) i := by
+  rcases mgetStart_spec b0 i ks iter with ⟨_, _, e⟩ | ⟨_, e⟩ <;> rw [e]
+  · exact recFrame_finish b0 i _ h1 h2 h3
+  · exact recFrame_set b0 i _ h1 h2 h3 rfl
+
+/-- a load of the shutdown flag inside a multi-key read: no counter, no record — also when it finds the flag set and the
+    `get` answers `None` without a lookup -/
+theorem recFrame_mgetFlagAct {b : BState} (b0 : BState) (i : Nat) (outer : Bool) (ks : List Nat)
+    (acc : List (Option Nat)) (iter : Bool) (h1 : recView b0.g = recView b.g) (h2 : b0.g.cfg = b.g.cfg)
+    (h3 : b0.cl = b.cl) : RecFrame b (mgetFlagAct b0 i outer ks acc iter) i := by
+  rcases mgetFlagAct_spec b0 i outer ks acc iter with ⟨_, e⟩ | ⟨_, _, _, _, _, e⟩ | ⟨_, _, _, _, _, e⟩ |
+    ⟨_, _, _, _, _, e⟩ <;> rw [e]
+  · exact recFrame_finish b0 i _ h1 h2 h3
+  · exact recFrame_set b0 i _ h1 h2 h3 rfl
+  · exact recFrame_mgetNext b0 i _ _ _ h1 h2 h3
   · exact recFrame_set b0 i _ h1 h2 h3 rfl
 
 /-- What one action of client `i` is, position by position: the two actions of a read and `shutdown.stats_clear`
@@ -243,13 +264,14 @@ theorem recB_clientAct {b b' : BState} {i : Nat} {o o' : Oracle} (h : clientAct 
         all_goals first
           | exact recFrame_finish b i _ rfl rfl rfl
           | exact recFrame_set b i _ rfl rfl rfl rfl
+          | exact recFrame_mgetStart b i _ _ rfl rfl rfl
       · cases r <;> simp only [] at h
         · split at h
           all_goals simp only [Except.ok.injEq, Prod.mk.injEq] at h; obtain ⟨rfl, rfl⟩ := h
           · exact recFrame_finish b i _ rfl rfl rfl
           · exact recFrame_set b i _ rfl rfl rfl rfl
         all_goals simp only [Except.ok.injEq, Prod.mk.injEq] at h; obtain ⟨rfl, rfl⟩ := h
-        case mget ks iter => exact recFrame_mgetNext b i ks [] iter rfl rfl rfl
+        case mget ks iter => exact recFrame_mgetStart b i ks iter rfl rfl rfl
         all_goals exact recFrame_set b i _ rfl rfl rfl rfl
     | putPresent k v w ttl =>
       simp only [] at h
@@ -468,6 +490,9 @@ theorem recB_clientAct {b b' : BState} {i : Nat} {o o' : Oracle} (h : clientAct 
         simp only [Except.ok.injEq, Prod.mk.injEq] at h; obtain ⟨rfl, rfl⟩ := h
         exact ⟨g1, hp, rfl⟩
       · cases h
+    | mgetFlag outer ks acc iter =>
+      simp only [Except.ok.injEq, Prod.mk.injEq] at h; obtain ⟨rfl, rfl⟩ := h
+      exact recFrame_mgetFlagAct b i _ _ _ _ rfl rfl rfl
 
 /-! ## 4  one step, in numbers -/
 
@@ -1020,7 +1045,9 @@ theorem C15_layerB_mget_hit_step {b b' : BState} {i k : Nat} {ks : List Nat} {ac
 /-- The `pool.add` action for one hit of a multi-key read, for every state and oracle: EXACTLY ONE record — `hits`
     and `misses` untouched, `buffered + accessAdded + accessDropped` grows by exactly 1, the record is the key's hash
     at the END of the buffer the oracle chose (after that buffer, if full, was handed over whole) —, the value picked
-    up at the lookup is appended to the results, one read in flight less, and the read moves on (`mgetNext`). -/
+    up at the lookup is appended to the results, one read in flight less, and the read moves on (`mgetNext`: it returns,
+    or stands before its next load of the shutdown flag — which creates no record whatever it sees:
+    `C15_layerB_mget_flag_step`; before the model change `mgetNext` contained that load). -/
 theorem C15_layerB_mget_record_step {b b' : BState} {i k v : Nat} {ks : List Nat} {acc : List (Option Nat)}
     {iter : Bool} {o o' : Oracle} (hpc : b.cl[i]? = some (.mgetPool k v ks acc iter))
     (h : stepB b (.client i) o = .ok (b', o')) :
@@ -1048,6 +1075,25 @@ theorem C15_layerB_mget_record_step {b b' : BState} {i k v : Nat} {ks : List Nat
   refine ⟨idx, rest, buf, ho, hb, ho', by have := hs.hits; omega, by have := hs.misses; omega, ht, hpool, ?_, hb',
     by omega⟩
   rw [hpool, List.getElem?_set_self hlt]
+
+
+/-- A load of the shutdown flag inside a multi-key read (`.mgetFlag`; new with the model change that makes every load an
+    action of its own), for every state and oracle — whether it finds the flag set or not, and in particular when the
+    `get` for a key finds it set and answers `None` without a lookup: NOTHING of the shared state changes — no hit, no
+    miss, no record, no counter —, no oracle value is consumed, no read enters or leaves the in-flight position. -/
+theorem C15_layerB_mget_flag_step {b b' : BState} {i : Nat} {outer : Bool} {ks : List Nat} {acc : List (Option Nat)}
+    {iter : Bool} {o o' : Oracle} (hpc : b.cl[i]? = some (.mgetFlag outer ks acc iter))
+    (h : stepB b (.client i) o = .ok (b', o')) :
+    b'.g = b.g ∧ o' = o ∧ inFlightReads b' = inFlightReads b := by
+  simp only [stepB] at h
+  unfold clientAct at h
+  simp only [hpc, Except.ok.injEq, Prod.mk.injEq] at h
+  obtain ⟨rfl, rfl⟩ := h
+  refine ⟨mgetFlagAct_g _ _ _ _ _ _, rfl, ?_⟩
+  obtain ⟨_, _, pc', hcl, h0⟩ := recFrame_mgetFlagAct (b := b) b i outer ks acc iter rfl rfl rfl
+  have := recB_inFlight_set hpc hcl
+  rw [h0] at this
+  simpa [CPc.inFlight] using this
 
 /-- Every action that is not one of the two actions of a read — the worker's, the sweeper's, the consumer's, a
     client's at any other position (issuing and starting a request included), the clock — leaves `hits`, `misses`,
@@ -1401,26 +1447,33 @@ example : recRun (putRun ++ lookupRun 1 (.get 2)) = some [0, 1, 0, 0, 0, 0, 0] :
 example : recRun (putRun ++ readRun 1 (.get 1) ++ readRun 0 (.getRef 1) ++ readRun 1 (.get 1) ++
     [(.consumer, { dkAdd := [true] })] ++ readRun 0 (.get 1)) = some [4, 0, 1, 2, 1, 0, 1] := by decide
 
-/-- a `multi_get([1, 2, 1])` of client 1 after the lookup of its first key (a hit): counted, in flight, no record -/
-example : recRun (putRun ++ call 1 (.mget [1, 2, 1] false) 2) = some [1, 0, 0, 0, 0, 1, 0] := by decide
-/-- … after that hit's `pool.add`: ONE record buffered, nothing in flight; the read stands at key 2 -/
-example : recRun (putRun ++ call 1 (.mget [1, 2, 1] false) 2 ++ [(.client 1, { pool := [0] })]) =
+/-- a `multi_get([1, 2, 1])` of client 1 after the lookup of its first key (a hit; four actions: the first one, the
+    load at the entry, the load inside `get`, `store.get`): counted, in flight, no record -/
+example : recRun (putRun ++ call 1 (.mget [1, 2, 1] false) 4) = some [1, 0, 0, 0, 0, 1, 0] := by decide
+/-- … after that hit's `pool.add`: ONE record buffered, nothing in flight; the read stands before the load of `get(2)` -/
+example : recRun (putRun ++ call 1 (.mget [1, 2, 1] false) 4 ++ [(.client 1, { pool := [0] })]) =
     some [1, 0, 1, 0, 0, 0, 0] := by decide
-/-- … a `get` of client 0 interleaved between the keys (its hit in flight), then key 2 (a miss) and the lookup of the
-    third key (a hit again): two reads in flight at once, one of them a multi-key read -/
-example : recRun (putRun ++ call 1 (.mget [1, 2, 1] false) 2 ++ [(.client 1, { pool := [0] })] ++
-    lookupRun 0 (.get 1) ++ [(.client 1, noO), (.client 1, noO)]) = some [3, 1, 1, 0, 0, 2, 0] := by decide
+/-- … a `get` of client 0 interleaved between the keys (its hit in flight), then key 2 (load, a miss) and the load and
+    the lookup of the third key (a hit again): two reads in flight at once, one of them a multi-key read -/
+example : recRun (putRun ++ call 1 (.mget [1, 2, 1] false) 4 ++ [(.client 1, { pool := [0] })] ++
+    lookupRun 0 (.get 1) ++ [(.client 1, noO), (.client 1, noO), (.client 1, noO), (.client 1, noO)]) =
+    some [3, 1, 1, 0, 0, 2, 0] := by decide
 /-- … the whole interleaving to its end: three hits, three records (one buffered, one delivered, one dropped with the
     channel full), one miss; every hit exactly one record -/
-example : recRun (putRun ++ call 1 (.mget [1, 2, 1] false) 2 ++ [(.client 1, { pool := [0] })] ++
-    lookupRun 0 (.get 1) ++ [(.client 1, noO), (.client 1, noO), (.client 0, { pool := [0] }),
-      (.client 1, { pool := [0] })]) = some [3, 1, 1, 1, 1, 0, 1] := by decide
+example : recRun (putRun ++ call 1 (.mget [1, 2, 1] false) 4 ++ [(.client 1, { pool := [0] })] ++
+    lookupRun 0 (.get 1) ++ [(.client 1, noO), (.client 1, noO), (.client 1, noO), (.client 1, noO),
+      (.client 0, { pool := [0] }), (.client 1, { pool := [0] })]) = some [3, 1, 1, 1, 1, 0, 1] := by decide
+/-- … and a `get` of the read that finds the shutdown flag set (client 0's `shutdown()` up to its compare-and-swap, after
+    key 1 is done): `[Some(100), None, None]` — no further lookup, no miss, no record: the numbers stay as they were -/
+example : recRun (putRun ++ call 1 (.mget [1, 2, 1] false) 4 ++ [(.client 1, { pool := [0] })] ++ call 0 .shutdown 2 ++
+    [(.client 1, noO), (.client 1, noO)]) = some [1, 0, 1, 0, 0, 0, 0] := by decide
 
 /-- hypotheses of `C15_layerB_mget_hit_step` / `C15_layerB_mget_record_step` / `C15_layerB_mget_saturated_drops`
     (reachable, running): client 1 stands at the lookup of key 1 of a multi-key read, then at its `pool.add` with the
-    chosen buffer full and the channel full; the action is enabled and the read goes on to key 2 -/
+    chosen buffer full and the channel full; the action is enabled and the read goes on to key 2 (the iterator stands
+    before the load of its next `next()`) -/
 example :
-    (match runB initRec (putRun ++ readRun 1 (.get 1) ++ readRun 0 (.getRef 1) ++ call 1 (.mget [1, 2] true) 1) with
+    (match runB initRec (putRun ++ readRun 1 (.get 1) ++ readRun 0 (.getRef 1) ++ call 1 (.mget [1, 2] true) 3) with
      | .ok b =>
        (match b.cl[1]? with
         | some (CPc.mgetStore k ks acc iter) => decide (k = 1 ∧ ks = [2] ∧ acc = [] ∧ iter = true)
@@ -1436,7 +1489,7 @@ example :
           (match stepB b1 (.client 1) { pool := [0] } with
            | .ok (b2, _) =>
              (match b2.cl[1]? with
-              | some (CPc.mgetStore k ks acc iter) => decide (k = 2 ∧ ks = [] ∧ acc = [some 100] ∧ iter = true)
+              | some (CPc.mgetFlag outer ks acc iter) => decide (outer = true ∧ ks = [2] ∧ acc = [some 100] ∧ iter = true)
               | _ => false) &&
              decide (b2.g.stats.accessDropped = b1.g.stats.accessDropped + 1 ∧ b2.g.pool[0]? = some [1] ∧
                      inFlightReads b2 + 1 = inFlightReads b1)
